@@ -167,7 +167,12 @@ def replay_behaviours(ctx, behaviours, tag="replay", timeout=1500):
         tag, res["evaluations"], st.get("steps", 0), len(res.get("violations", [])), st.get("diverged", 0),
         st.get("replay_ms", 0) / 1000.0))
     if res.get("_died"):
-        raise lib.Inconclusive("replay driver died: " + res.get("_stdout_tail", ""))
+        # the test binary was killed by the Go runtime (e.g. "concurrent map read and map write" on a Cloak goroutine).
+        # That is not one of these properties' predicates; what was recorded before the crash still counts.
+        msg = "replay driver died while running %s: %s" % (res.get("running"), res.get("_stdout_tail", "")[-1500:])
+        if not res.get("violations") and not ctx.violations:
+            raise lib.Inconclusive(msg)
+        ctx.notes.append(msg)
     return res
 
 
@@ -223,56 +228,77 @@ RULE = ("B1: maximal behaviours of UserPanelGen (goroutine programs of connectio
 
 def trace_subst(maxnew):
     return {"NU": 2, "NS": 3, "SLOTS": ",".join(str(1000 * i) for i in range(1, 7)), "CAPS": "13,23", "CREDS": "19,29",
-            "INITSESS": "11,21", "MAXNEW": maxnew, "DEV": ",".join('"%s"' % x for x in CODE_DEV)}
+            "INITSESS": "11,21", "MAXNEW": maxnew, "DEV": ",".join('"%s"' % x for x in CODE_DEV),
+            # a deviation the tree is known to have does not stop the validation: if the whole trace is accepted with
+            # the remaining invariants, every unreachable session in it is explained by that deviation
+            "INV": " ".join(["NoDeadlock", "OwnedModuloDev", "OwnedNoStale"] + ([] if "UserLookupGap" in CODE_DEV else ["OwnedNoGap"]))}
 
 
-def run_trace(ctx, jobs, rounds):
-    """B2: record a really-concurrent run, validate it with TLC"""
-    tr = lib.run_go(ctx, "server", "TestVerifC17Trace", env={"VERIF_C17_ROUNDS": rounds}, tag="trace", timeout=900,
-                    prefixes=("c15", "c16", "c17", "shared"))
+def run_trace(ctx, jobs, rounds, worlds=1):
+    """B2: record really-concurrent runs (one trace per world), validate each with TLC"""
+    tr = lib.run_go(ctx, "server", "TestVerifC17Trace", env={"VERIF_C17_ROUNDS": rounds, "VERIF_C17_WORLDS": worlds}, tag="trace",
+                    timeout=900, prefixes=("c15", "c16", "c17", "shared"))
     if tr.get("_died"):
         raise lib.Inconclusive("trace driver died: " + tr.get("_stdout_tail", ""))
-    tpath = os.path.join(tr["_out_dir"], "trace.ndjson")
-    lines = open(tpath).read().splitlines()
-    nconns = tr.get("stats", {}).get("conns", 0)
+    traces = []
+    for wi in range(worlds):
+        tpath = os.path.join(tr["_out_dir"], "trace_%d.ndjson" % wi)
+        if not os.path.exists(tpath):
+            break
+        lines = open(tpath).read().splitlines()
+        nconns = sum(1 for x in lines if '"k":"conn"' in x)
 
-    def validate():
-        return lib.run_tlc(ctx, "UserPanelTrace", "UserPanelTrace.cfg", trace_subst(nconns + 2), workers=1,
-                           env={"VERIF_TRACE": tpath}, expect_violation=True, tag="trace", dfs=True, timeout=1200)
-    fut = jobs.pool.submit(validate)
-    return tr, lines, fut
+        def validate(tpath=tpath, nconns=nconns, wi=wi):
+            return lib.run_tlc(ctx, "UserPanelTrace", "UserPanelTrace.cfg", trace_subst(nconns + 2), workers=1,
+                               env={"VERIF_TRACE": tpath}, expect_violation=True, tag="trace_%d" % wi, dfs=True, timeout=1500)
+        traces.append((wi, lines, jobs.pool.submit(validate)))
+    return tr, traces
 
 
-def finish_trace(ctx, tr, lines, fut):
-    v = fut.result()
-    ctx.log("trace: %d events, %d rounds, accepted=%s (%d states, %.0fs)" % (
-        len(lines), tr.get("stats", {}).get("rounds", 0), v.ok, v.distinct, v.wall))
-    why = {"OwnedNoGap": "lookup-gap-vs-terminate", "OwnedNoStale": "stale-terminate-removes-new-record"}
+WHY_INV = {"OwnedNoGap": "lookup-gap-vs-terminate", "OwnedNoStale": "stale-terminate-removes-new-record"}
+
+
+def finish_trace(ctx, tr, traces):
+    """maps what the driver saw at the quiescent moments to keys, using TLC's account of each world's trace"""
     seen = [x for x in tr.get("violations", [])]
-    if v.ok:
-        for x in seen:
-            x["key"] = x["key"].replace("owned:b2", "owned:b2-unexplained")
-    elif v.violated in why or v.violated == "OwnedModuloDev":
-        k = "owned:" + why.get(v.violated, "unexplained")
-        if not any(x["key"] == "owned:b2" for x in seen):
-            raise lib.Inconclusive("TLC finds %s violated on the recorded trace but the driver saw every live session owned" % v.violated)
-        for x in seen:
-            if x["key"] == "owned:b2":
-                x["key"] = k
+    accepted, events, states = 0, 0, 0
+    for wi, lines, fut in traces:
+        v = fut.result()
+        events += len(lines)
+        states += v.distinct
+        mine = [x for x in seen if x["key"] == "owned:b2" and (x.get("replay") or {}).get("world") == wi]
+        ctx.log("trace %d: %d events, accepted=%s%s (%d states, %.0fs)" % (
+            wi, len(lines), v.ok, "" if v.ok else " [%s]" % v.violated, v.distinct, v.wall))
+        if v.ok:
+            accepted += 1
+            for x in mine:
+                # accepted under OwnedModuloDev and OwnedNoStale: what is left is the deviation the tree is known to have
+                x["key"] = "owned:lookup-gap-vs-terminate" if "UserLookupGap" in CODE_DEV else "owned:b2-unexplained"
+                x["replay"]["explained_by"] = "trace accepted by UserPanelTrace with Dev=%s" % CODE_DEV
+        elif v.violated in WHY_INV or v.violated == "OwnedModuloDev":
+            if not mine:
+                raise lib.Inconclusive("TLC finds %s violated on the recorded trace %d but the driver saw every live session owned" % (v.violated, wi))
+            for x in mine:
+                x["key"] = "owned:" + WHY_INV.get(v.violated, "unexplained")
                 x["replay"]["tlc_invariant"] = v.violated
-    elif v.violated == "NoDeadlock":
-        raise lib.Inconclusive("trace validation: NoDeadlock violated on a trace that completed")
-    else:
-        line = v.rejected_at
-        ev = lines[line - 1] if line and line <= len(lines) else "?"
-        for x in seen:
-            x["key"] = x["key"].replace("owned:b2", "owned:b2-unexplained")
-        if not seen:
-            raise lib.Inconclusive("recorded execution is not a behaviour of UserPanel with Dev=%s: event %s at line %s cannot be "
-                                   "explained; context: %s" % (CODE_DEV, ev, line, lines[max(0, (line or 1) - 8):(line or 1)]))
-        ctx.notes.append("trace rejected at line %s (%s)" % (line, ev))
+        elif v.violated == "NoDeadlock":
+            raise lib.Inconclusive("trace validation: NoDeadlock violated on a trace that completed")
+        else:
+            line = v.rejected_at
+            ev = lines[line - 1] if line and line <= len(lines) else "?"
+            for x in mine:
+                x["key"] = "owned:b2-unexplained"
+            msg = ("recorded execution %d is not a behaviour of UserPanel with Dev=%s: event %s at line %s cannot be explained; "
+                   "context: %s" % (wi, CODE_DEV, ev, line, lines[max(0, (line or 1) - 8):(line or 1)]))
+            if not seen and not ctx.violations:
+                # nothing in the run broke a property predicate: the model is not the code's (drift), not a verdict
+                raise lib.Inconclusive(msg)
+            ctx.notes.append(msg)
+    for x in seen:
+        if x["key"] == "owned:b2":
+            x["key"] = "owned:b2-unexplained"
     classify(ctx, tr, KEYS)
-    return v
+    return accepted, events, states
 
 
 def run(ctx):
@@ -281,16 +307,22 @@ def run(ctx):
     jobs = Jobs(ctx)
     try:
         # ---- B2 first: it needs no TLC output; its validation joins the pool
-        tr, lines, tfut = run_trace(ctx, jobs, n(40, 400))
+        tr, traces = run_trace(ctx, jobs, 60, worlds=n(1, 6))
         # ---- model checking at lock-step granularity
         small = [(S11, C12, C12), (S11, R12, C12), (S11, C12, M), (S11, U, M), (U, U, M), (S11, C11, U), (S11, R12, M)]
         big = small + [(S11, R12, C12, C12), (S11, C12, C12, U, M), (S11, R12, C12, U, M), (U, M, U, M), (S11, C12, U, M, M)]
-        jobs.mc("ideal", cfg(n(small, big), dev=[], inv=INV_IDEAL), timeout=3000)
-        jobs.mc("code", cfg(n(small, big), inv=INV_CODE), timeout=3000)
+        huge = big + [(S11, R12, C12, C12, M), (S11, C12, C12, U, M, M), (S11, R12, R11, C12, U, M)]
+        jobs.mc("ideal", cfg(n(big, huge), dev=[], inv=INV_IDEAL), timeout=3000, workers=8)
+        jobs.mc("code", cfg(n(big, huge), inv=INV_CODE), timeout=3000, workers=8)
+        # terminations ordered by an upload (the user expires through the admin API at some point)
+        term = [(S11, C12, M), (S11, C12, C12, M), (S11, U, M, C12)]
+        jobs.mc("code_term", cfg(n(term, term + [(S11, R12, C12, M, M), (S11, C12, U, M, M)]), inv=INV_CODE, admin=["expire", "unexpire"],
+                                 maxadmin=n(1, 2)), timeout=3000, workers=8)
+        jobs.mc("ideal_term", cfg(term, dev=[], inv=INV_IDEAL, admin=["expire", "unexpire"], maxadmin=n(1, 2)), timeout=3000)
         if not q:
             two = [(op("serve", 1, 1), op("serve", 2, 1), op("conn", 1, 2), op("conn", 2, 2), M),
                    (op("serve", 1, 1), op("conn", 2, 1), op("conn", 1, 2), U, M)]
-            jobs.mc("code_2users", cfg(two, nu=2, init=(11, 21), inv=INV_CODE), timeout=3000)
+            jobs.mc("code_2users", cfg(two, nu=2, init=(11, 21), inv=INV_CODE, admin=["expire"], maxadmin=1), timeout=3000, workers=8)
         # negative configurations: each named deviation must be found (non-vacuity)
         jobs.mc("neg_lockorder", cfg([(U, U, M)], dev=["PanelLockOrderAQ"], inv="NoDeadlock"), expect="NoDeadlock")
         jobs.mc("neg_gap", cfg([(S11, C12, C12)], dev=["UserLookupGap"], inv="Owned"), expect="Owned")
@@ -304,10 +336,10 @@ def run(ctx):
         jobs.gen("stale", cfg([(S11, R12, C12, C12)], dev=CODE_DEV + ["StaleTerminate"], gates=["unlocked"], depth=12),
                  mode="hypo", keep=lambda b: has_unowned(b, "stale-terminate"))
         # the general mix: rounds overlapping connects, reaps and terminations
-        jobs.gen("rounds", cfg([(S11, U, M, U, M), (S11, C12, U, M), (S11, R12, U, M, C12)], gates=ROUND_GATES + ["resolved"], depth=20),
-                 simulate=n(150, 3000))
+        jobs.gen("rounds", cfg([(S11, U, M, U, M), (S11, C12, U, M), (S11, R12, U, M, C12)], gates=ROUND_GATES + ["resolved"], depth=20,
+                               admin=["expire", "unexpire"], maxadmin=1), simulate=n(200, 4000))
         jobs.gen("mix2", cfg([(op("serve", 1, 1), op("serve", 2, 1), op("conn", 1, 2), op("connr", 2, 2), U, M)], nu=2, init=(11, 21),
-                             gates=CONN_GATES + ["lockedQ"], depth=20), simulate=n(100, 2000))
+                             gates=CONN_GATES + ["lockedQ"], depth=20, admin=["expire"], maxadmin=1), simulate=n(120, 3000))
         gens = jobs.gens()
         for name in ("lockorder", "stale", "gap"):
             if not gens[name]:
@@ -320,7 +352,7 @@ def run(ctx):
         res = replay_behaviours(ctx, allb)
         classify(ctx, res, KEYS)
         require_reproduced(ctx, res, "owned:lookup-gap-vs-terminate", len(gapcex), "a live session on a record the panel no longer knows")
-        v = finish_trace(ctx, tr, lines, tfut)
+        tacc, tevents, tstates = finish_trace(ctx, tr, traces)
         mcs = jobs.wait_mc()
         div, unstable = check_drift(ctx, [res])
         st = res.get("stats", {})
@@ -328,13 +360,13 @@ def run(ctx):
             "evaluations": res["evaluations"] + tr["evaluations"],
             "distinct_nontrivial": res["distinct_nontrivial"] + tr["distinct_nontrivial"],
             "rule": RULE, "samples": (res.get("samples", []) + tr.get("samples", []))[:5],
-            "traces_validated_against_impl": len(allb) + (1 if v.ok else 0), "exhaustive": True,
+            "traces_validated_against_impl": len(allb) + tacc, "exhaustive": True,
             "behaviours_replayed": {k: len(gens[k]) for k in gens}, "replay_steps": st.get("steps", 0),
             "model_counterexamples_replayed": {"lookup_gap": len(gapcex), "lockorder_hypotheses": len(gens["lockorder"]),
                                                "stale_hypotheses": len(gens["stale"])},
             "hypotheses": {k: x for k, x in st.items() if k.startswith("hypothesis_")},
-            "trace_events_validated": len(lines), "trace_rounds": tr.get("stats", {}).get("rounds", 0),
-            "programs": [list(p) for p in n(small, big)], "code_dev": CODE_DEV,
+            "trace_events_validated": tevents, "trace_worlds": len(traces), "trace_rounds": tr.get("stats", {}).get("rounds", 0),
+            "programs": [list(p) for p in n(big, huge)] + [list(p) for p in term], "code_dev": CODE_DEV,
             "negative_configs": {k: mcs[k].violated for k in mcs if k.startswith("neg_")},
             "diverged": div, "unstable": unstable,
             "checker_cmd": "tlc UserPanel.tla / UserPanelGen.tla / UserPanelTrace.tla + go test -run 'TestVerifPanelReplay|TestVerifC17Trace'",
